@@ -36,6 +36,68 @@ def _run(job):
                     entries=0, nonzero=0, digest="", mismatches=[], checks=[], symbols=[], ops=[], time_s=0)
 
 
+def _fork_map(jobs, n, stop_on_first):
+    """Plain fork/waitpid fan-out: worker k runs jobs k, k+n, k+2n, ... and writes its results to a
+    temporary file.  (multiprocessing.Pool was dropped: its helper threads made about one run in 25
+    hang at pool shutdown.)  `stop_on_first`: a worker that finds a mismatch creates a flag file,
+    the others stop at their next case."""
+    import json
+    import tempfile
+    d = tempfile.mkdtemp(prefix="engineb_fan_")
+    flag = os.path.join(d, "stop")
+    n = max(1, min(n, len(jobs)))
+    pids = []
+    for k in range(n):
+        pid = os.fork()
+        if pid == 0:
+            code = 0
+            try:
+                _init_worker()
+                out = []
+                for j in jobs[k::n]:
+                    if stop_on_first and os.path.exists(flag):
+                        break
+                    r = _run(j)
+                    out.append(r)
+                    if stop_on_first and r["status"] in ("mismatch", "raised"):
+                        open(flag, "w").close()
+                        break
+                with open(os.path.join(d, f"part{k}.json.tmp"), "w") as f:
+                    json.dump(out, f)
+                os.replace(os.path.join(d, f"part{k}.json.tmp"), os.path.join(d, f"part{k}.json"))
+            except BaseException:          # noqa: BLE001
+                code = 1
+                try:
+                    with open(os.path.join(d, f"part{k}.err"), "w") as f:
+                        f.write(traceback.format_exc())
+                except Exception:          # noqa: BLE001
+                    pass
+            finally:
+                os._exit(code)
+        pids.append(pid)
+    failed = []
+    for k, pid in enumerate(pids):
+        _, status = os.waitpid(pid, 0)
+        if status != 0:
+            failed.append(k)
+    results = []
+    errs = []
+    for k in range(n):
+        f = os.path.join(d, f"part{k}.json")
+        if os.path.exists(f):
+            with open(f) as fh:
+                results.extend(json.load(fh))
+        elif os.path.exists(os.path.join(d, f"part{k}.err")):
+            errs.append(open(os.path.join(d, f"part{k}.err")).read()[-1500:])
+        else:
+            errs.append(f"worker {k} died without a result (exit status {k in failed})")
+    import shutil
+    shutil.rmtree(d, ignore_errors=True)
+    if errs:
+        raise RuntimeError("worker failure:\n" + "\n".join(errs))
+    return results
+
+
 def check_origin(repo_root, packages):
     root = os.path.realpath(repo_root)
     bad = []
@@ -83,13 +145,7 @@ def main(argv=None):
             import gc
             gc.collect()
             gc.freeze()                    # keep the parent's heap out of the children's collections (no CoW storm)
-            with mp.get_context("fork").Pool(a.jobs, initializer=_init_worker) as pool:
-                it = pool.imap_unordered(_run, jobs, chunksize=max(1, min(8, len(jobs) // (a.jobs * 8) or 1)))
-                for r in it:
-                    res["results"].append(r)
-                    if a.stop_on_first and r["status"] in ("mismatch", "raised"):
-                        pool.terminate()
-                        break
+            res["results"] = _fork_map(jobs, a.jobs, a.stop_on_first)
         else:
             for j in jobs:
                 r = _run(j)
